@@ -108,3 +108,16 @@ func ruleLoopVarAlias(c *Ctx, r *Report, rule string, scope map[*ssa.Function]bo
 		r.okNT(rule, "no retained address of a per-loop variable", "-", fmt.Sprintf("%d functions scanned", len(scope)))
 	}
 }
+
+// everyIterationReaches: site lies in a loop, and no path from the loop header round to the header avoids site's block
+// (paths that leave the function through a return - an error abort - do not count as iterations).
+func everyIterationReaches(f *ssa.Function, site ssa.Instruction) (bool, string) {
+	l := innermostLoop(f, site.Block())
+	if l == nil {
+		return false, "not inside a loop"
+	}
+	if !everyIterationPasses(l, site.Block()) {
+		return false, "an iteration can complete without it"
+	}
+	return true, ""
+}
